@@ -27,7 +27,7 @@ Proof. intros. unfold g_v2_GetMedian. reflexivity. Qed.
    contributes its block key (2) and, when it has ids, at most ObservationUpkeepsLimit of them (3 cut, 4 append) *)
 Lemma gen_v2_obs2keys_body : forall (undecodable invalid : bool) n_ids limit,
   g_v2_obs2keys_body undecodable invalid n_ids n_ids limit =
-  if undecodable || invalid then ([1], Cont)
+  if undecodable || invalid then ([1], Fall)
   else if 0 <? n_ids then (if limit <? n_ids then ([2; 3; 4], Fall) else ([2; 4], Fall)) else ([2], Fall).
 Proof.
   intros. unfold g_v2_obs2keys_body. destruct undecodable, invalid; cbn [orb]; try reflexivity.
@@ -53,7 +53,7 @@ Qed.
 
 (* polling observer Observe, loop body: an id is listed (1) unless the coordinator reports its key pending or fails *)
 Lemma gen_v2_Observe_body : forall pending err : bool,
-  g_v2_Observe_body pending err = if pending || err then ([], Cont) else ([1], Fall).
+  g_v2_Observe_body pending err = if pending || err then ([], Fall) else ([1], Fall).
 Proof. intros [|] [|]; reflexivity. Qed.
 
 (* report-level calls: an empty report is not accepted; every key of the report is accepted (an error stops);
